@@ -350,7 +350,8 @@ PROPS = {
     "C18": {
         "properties": [
             "C18",
-            "C18_v2import"
+            "C18_v2import",
+            "C18_v2public"
         ],
         "domains": [
             {
@@ -373,19 +374,29 @@ PROPS = {
                 "n_quick": 24,
                 "n_thorough": 300,
                 "model": True
+            },
+            {
+                "name": "c18pub",
+                "run_vo": "Model/RunKeyRingV2Ext.vo",
+                "n_quick": 9,
+                "n_thorough": 54,
+                "model": True
             }
         ],
         "trusted": [
             "gob (v1) serialisation is abstract in the model ([deser (ser l) = Some l] is a premise); the harness decodes the real bytes with Go's gob",
             "Properties/C18_v2import.v (21 theorems): keystore v2 export/import at key granularity (Model/KeyRingV2Ext.v: exportKeyRings, importKeyRing, copyKey, addKeyData, getters, ring histories), the DER layout of asn1.EncryptedKeys (Model/DerV2Ext.v, parse-after-serialize identity; the serializer is replayed byte-exact against the real bundle plaintext, the parser only on honest bytes: the strictness of encoding/asn1 on other inputs stays trusted, as does the DER of the outer SignedContainer which the harness decodes with acra's asn1 package) and `acra-keys migrate` (Model/MigrateV2Ext.v) are CHECKED models replayed by the domains c18v2 / c18mig; a back end is modelled as a map from ring path to ring (the signed ring file: C07 / Model/Notary.v); UTCTime values are carried as their 13 characters (time zone UTC); the identity theorem is stated for keys with one format (all that acra's ServerKeyStore creates), keys with two formats are covered by replay and the oracle only",
-            "c18mig runs keystore v1 in a fresh temporary directory of the real file system (MigrateV1toV2 reads key files with os.Open) with well-formed client ids only; history file names, clock values and the nonce of the migration are normalised so that the cases depend on the seed alone"
+            "c18mig runs keystore v1 in a fresh temporary directory of the real file system (MigrateV1toV2 reads key files with os.Open) with well-formed client ids only; history file names, clock values and the nonce of the migration are normalised so that the cases depend on the seed alone",
+            "Properties/C18_v2public.v (11 theorems): export without the private bit and the import of its result, over the same CHECKED models (Model/KeyRingV2Ext.v export per stored FORMAT, Model/PublicExportV2Ext.v public view / stripped rings / key-pair rings of a history); the domain c18pub enumerates export modes 1,2,4,3,6 x ring shapes (single, rotated, old / current / all keys destroyed, public-only keys, key states, no current key, symmetric rings, empty ring, API-only mixed rings and two-format keys) x targets (empty, other rings, same rings with overwrite / skip / default delegate) and replays KHist, KView, KExport, KDerRoundTrip, KRoundTrip (model export -> DER SET order -> model import, compared with the rings the real import wrote) and KImportView; its last leg (ServerKeyStore + KeyBackuper.Export/Import, the acra-keys export/import path) is oracle only because acra generates the access keys there"
         ],
         "assumptions": [
             "Correct C; serialised key list and each key shorter than 2^32-1024 bytes and non-empty; nonces of 12 bytes",
             "rejection theorems are reductions to an AEAD / MAC forgery witness",
             "known finding v2-export-all-omits-private",
             "known finding v1-migrate-rotated-keys-not-carried (C18_migrate_rotated_keys_refuted)",
-            "C18_v2import: Correct C; nonces of 12 bytes; key fields shorter than 2^32-1024 bytes (DER: every length below 2^32, integers within int64); import identity is conditional on ImportKeyRings returning success (success itself is shown by the concrete Examples and the replay)"
+            "C18_v2import: Correct C; nonces of 12 bytes; key fields shorter than 2^32-1024 bytes (DER: every length below 2^32, integers within int64); import identity is conditional on ImportKeyRings returning success (success itself is shown by the concrete Examples and the replay)",
+            "C18_v2public: no crypto premise (the public-only path performs no cryptographic operation); NoDup selection; the identity is conditional on the export and ImportKeyRings returning success (success of the export is characterised exactly: C18_v2_public_export_succeeds / _contents; of the import: Examples and replay); target delegate overwrites or target lacks the selected rings",
+            "known finding v2-public-export-drops-mixed-ring (C18_v2_public_export_mixed_ring_refuted)"
         ]
     },
     "C07": {
